@@ -16,6 +16,9 @@ func (_ ValueBool) Kind() ValueKind { return BoolValueKind }
 func (self ValueBool) Display() (string, *VmInterrupt) { return fmt.Sprint(self.Inner), nil }
 
 func (self ValueBool) IsEqual(other Value) (bool, *VmInterrupt) {
+	if other.Kind() != self.Kind() {
+		return false, nil // values of different kinds (elements of an `[any]`, content of a `{ ? }`) are not equal
+	}
 	return self.Inner == other.(ValueBool).Inner, nil
 }
 
